@@ -14,7 +14,11 @@ import (
 	"strconv"
 	"strings"
 	"time"
+	"verif/harness/internal/real"
 	"verif/harness/internal/script"
+
+	tmproto "github.com/cometbft/cometbft/proto/tendermint/types"
+	"github.com/cosmos/cosmos-sdk/types/bech32"
 
 	"github.com/cosmos/cosmos-sdk/crypto/keys/secp256k1"
 	sdk "github.com/cosmos/cosmos-sdk/types"
@@ -69,6 +73,65 @@ func protect(th thunk) (res string) {
 		}
 	}()
 	return th()
+}
+
+// ---------------------------------------------------------------- an application with empty stores (owner gate requests)
+
+var (
+	gateA   *app.App
+	gateCtx sdk.Context
+)
+
+func gateApp() (*app.App, sdk.Context) {
+	if gateA == nil {
+		home, err := os.MkdirTemp("", "vpure-home-")
+		if err != nil {
+			panic(err)
+		}
+		gateA = real.NewBareApp(home)
+		gateCtx = gateA.BaseApp.NewContext(true, tmproto.Header{ChainID: real.ChainID, Height: 1})
+		_ = os.RemoveAll(home)
+	}
+	return gateA, gateCtx
+}
+
+// storedOwner maps the stored-owner token of an ownergate request to the string written into the registration.
+func storedOwner(tok string) (string, bool, error) {
+	switch {
+	case tok == "none":
+		return "", false, nil
+	case tok == "-":
+		return "", true, nil
+	case tok == "J":
+		return "owner", true, nil
+	case len(tok) >= 2 && strings.ContainsRune("AUFT", rune(tok[0])):
+		i, err := strconv.Atoi(tok[1:])
+		if err != nil {
+			return "", false, err
+		}
+		canon := accBech32(i)
+		switch tok[0] {
+		case 'A':
+			return canon, true, nil
+		case 'U':
+			return strings.ToUpper(canon), true, nil
+		case 'F':
+			bz, err := sdk.AccAddressFromBech32(canon)
+			if err != nil {
+				return "", false, err
+			}
+			s, err := bech32.ConvertAndEncode("cosmos", bz)
+			return s, true, err
+		default:
+			last := canon[len(canon)-1]
+			repl := byte('q')
+			if last == 'q' {
+				repl = 'p'
+			}
+			return canon[:len(canon)-1] + string(repl), true, nil
+		}
+	}
+	return "", false, fmt.Errorf("ownergate: unknown stored-owner token %q", tok)
 }
 
 // ---------------------------------------------------------------- token decoding
@@ -535,6 +598,47 @@ func parseRequest(line string) (thunk, error) {
 		}
 		return func() string {
 			return okErr(streamtypes.NewParams(sdk.NewDecFromBigIntWithPrec(fee, 18)).Validate())
+		}, nil
+
+	case "ownergate":
+		// ownergate <wrk|bcn> <stored owner> <recorder A<j>>: the keeper's IsAuthorisedToRecord on a registration (id 1) whose
+		// stored Owner string is: A<i> canonical bech32, U<i> the same in upper case, F<i> the same bytes under a foreign
+		// prefix, T<i> canonical with a wrong last character, J an arbitrary word, - the empty string, none: no registration
+		if err := need(f, 4); err != nil {
+			return nil, err
+		}
+		if f[1] != "wrk" && f[1] != "bcn" {
+			return nil, fmt.Errorf("ownergate: unknown module %q", f[1])
+		}
+		stored, present, err := storedOwner(f[2])
+		if err != nil {
+			return nil, err
+		}
+		if !strings.HasPrefix(f[3], "A") {
+			return nil, fmt.Errorf("ownergate: recorder must be A<j>")
+		}
+		j, err := strconv.Atoi(f[3][1:])
+		if err != nil {
+			return nil, err
+		}
+		mod := f[1]
+		return func() string {
+			a, base := gateApp()
+			ctx, _ := base.CacheContext()
+			rec, err := sdk.AccAddressFromBech32(accBech32(j))
+			if err != nil {
+				return "panic"
+			}
+			if mod == "bcn" {
+				if present {
+					_ = a.BeaconKeeper.SetBeacon(ctx, beacontypes.Beacon{BeaconId: 1, Moniker: "m", Name: "n", Owner: stored})
+				}
+				return boolTok(a.BeaconKeeper.IsAuthorisedToRecord(ctx, 1, rec))
+			}
+			if present {
+				_ = a.WrkchainKeeper.SetWrkChain(ctx, wrktypes.WrkChain{WrkchainId: 1, Moniker: "m", Name: "n", Owner: stored})
+			}
+			return boolTok(a.WrkchainKeeper.IsAuthorisedToRecord(ctx, 1, rec))
 		}, nil
 
 	case "coins.lt", "coins.gt":
